@@ -128,6 +128,10 @@ def _value_of(expr: Expr) -> Number | None:
         # numerical evaluation of a Sum/Product with symbolic limits has to decide a symbolic relation.
         return None
 
+    if not value.is_finite:
+        # NaN or an infinity (e.g. from a formula evaluated at one of its singular points) has no numeric value
+        return None
+
     # Map to integer if possible
     if int(value) == value or value.is_Float and value % 1 == 0:
         value = int(value)
